@@ -13,6 +13,8 @@ func (v *Value) UnmarshalNBT(tagType byte, r nbt.DecoderReader) error {
 	v.tag = tagType
 	var buf [8]byte
 	switch tagType {
+	default:
+		return fmt.Errorf("unknown Tag %#02x", tagType)
 	case nbt.TagEnd:
 	case nbt.TagByte:
 		n, err := r.ReadByte()
@@ -86,6 +88,9 @@ func (v *Value) UnmarshalNBT(tagType byte, r nbt.DecoderReader) error {
 		}
 		if length < 0 {
 			return errors.New("list length less than 0")
+		}
+		if t == nbt.TagEnd && length > 0 {
+			return errors.New("list of TAG_End with non-zero length")
 		}
 
 		v.list = v.list[:0]
